@@ -163,3 +163,75 @@ def _fixed_ob(limit):
 
 _fixed_ob(True)
 _fixed_ob(False)
+
+
+# ---------------------------------------------------------------------------------------
+# O3: which files are read as fixed form at all: the extension decides (default fixed_extensions f, for, F, FOR)
+# ---------------------------------------------------------------------------------------
+EXTS = [("f", True), ("F", True), ("for", True), ("FOR", True), ("f90", False), ("F90", False), ("f95", False), ("F95", False), ("f03", False),
+        ("F03", False), ("f08", False), ("F08", False)]
+
+
+def replay_dispatch(w):
+    from fv import parserh as _ph
+    import ford.sourceform as sf
+    log = []
+    orig = sf.FortranReader
+
+    class Spy:
+        def __init__(self, path, *a, **k):
+            log.append((path.rsplit("/", 1)[-1], a[4] if len(a) > 4 else k.get("fixed")))
+            self._r = iter(())
+
+        def __iter__(self):
+            return self
+
+        def __next__(self):
+            raise StopIteration
+    sf.FortranReader = Spy
+    try:
+        _ph.project_concrete({"unit." + w["ext"]: ["subroutine s()", "end subroutine s"]}, preprocess=False)
+    except Exception:  # noqa
+        pass
+    finally:
+        sf.FortranReader = orig
+    got = [f for n, f in log]
+    return got != [w["fixed"]], {"file": "unit." + w["ext"], "read as fixed form": got, "fixed_extensions say": w["fixed"]}
+
+
+@obligation("C14", "O3.extension-decides-the-form", engine="SX(CV)", timeout=600)
+def dispatch(ctx):
+    """a project with one source file whose extension is symbolic (f, F, for, FOR, f90, F90, ...): the file is handed to the reader as fixed
+    form exactly when its extension is one of the (default) fixed_extensions, upper-case extensions included"""
+    import ford.fortran_project as fp
+    import ford.settings as st
+    from fv import parserh as _ph
+
+    ctx.encode_fn(fp.Project.__init__)
+    ctx.encode_fn(fp.Project._fortran_file)
+    ctx.encode_fn(st.ProjectSettings.__post_init__)
+    ctx.bounds.update({"extensions": [e for e, _ in EXTS], "settings": "defaults (fpp_extensions include F, FOR, F90, ...), preprocess off"})
+
+    def h(E):
+        e = CV.choice(E, "ext", EXTS).concretize()   # a file name: one path per extension
+        E.e.snapshot = lambda m: {"ext": e[0], "fixed": e[1]}
+        log = []
+        _ph.project({"unit." + e[0]: ["subroutine s()", "end subroutine s"]}, reader_log=log)
+        E.reachable("read")
+        E.require(len(log) == 1, "the source file is not read exactly once")
+        if log:
+            E.require(bool(log[0][1]) == e[1], "the file is read in the wrong source form")
+
+    E = sym.Engine(ctx, max_paths=200, incremental=True)
+    found = E.explore(h)
+    seen = set()
+    for (label, m, pc), snap in zip(found, E.snapshots):
+        if label in seen or not snap:
+            continue
+        seen.add(label)
+        ctx.report(label, snap, replay_dispatch)
+    if E.reached.get("read"):
+        ctx.twins += 1
+    else:
+        ctx.inconclusive.append("vacuity: no file read")
+    ctx.sample({"paths": E.paths})
